@@ -662,7 +662,8 @@ fn gen_bands(out: &mut dyn FnMut(String), seed: u64, thorough: bool) {
             out(format!("psolve {a} {} {} {base}", show_shape(&[n, 2], &rand_rhs(rng, n, 2)), show_shape(&[n, 2], &(0..2 * n).map(|_| if rng.below(3) == 0 { tiny(rng, base) } else { 0 }).collect::<Vec<i64>>())));
         }
         out(format!("pdet {a} {base}"));
-        if r == 0 && n <= 5 { out(format!("pqr {a} {base}")); }
+        // (modified Gram–Schmidt loses orthogonality in proportion to the condition number: only the matrices with cond <= 100 go through qr)
+        if r == 0 && n <= 5 && cond_cols_f(&band_mat(&m, &e, base)) <= 100. { out(format!("pqr {a} {base}")); }
     } } } }
     // ---- 18a'. solve with whole COLUMNS / ROWS of the matrix on their own scales, 2^k and 2^-k in pairs so that the determinant stays of
     // order one (the absolute |det| < 1e-12 test passes) while pivots, multipliers and intermediate right-hand sides are as small as 2^-50
@@ -1027,7 +1028,8 @@ fn to_verdict(r: Result<String, (String, String)>) -> Option<Verdict> {
 fn mat_of(s: &str) -> (usize, Vec<f64>) { let (shape, e) = parse_arr_raw(s); (shape[0], e.into_iter().map(|x| x as f64).collect()) }
 
 /// residual bound of an f64 solve: "to rounding accuracy".  Elimination with partial pivoting is backward stable, so whatever the
-/// condition number |A x - b| stays within a small multiple of eps * (n |A| |x| + |b|); 1e-13 is ~450 eps (the largest ratio observed on
+/// condition number |A x - b| stays within a small multiple of eps * (n |A| |x| + |b|) - for A, x as given and for every column scaling
+/// A D^-1, D x, the elimination being the same arithmetic; the smaller of the two is taken; 1e-13 is ~450 eps (the largest ratio observed on
 /// the pinned tree over all streams, both tiers, seeds 0-3, is below 2e-15).  Judged COLUMN BY COLUMN of the right-hand side (the columns are solved
 /// independently), so a column of tiny entries is not hidden behind a column of ordinary ones.
 const RES_TOL: f64 = 1e-13;
@@ -1039,9 +1041,11 @@ fn residual_cols(n: usize, av: &[f64], xv: &[f64], bv: &[f64], tol: f64, slack: 
         let nx = (0..n).fold(0f64, |m, t| m.max(xv[t * k + c].abs()));
         let nb = (0..n).fold(0f64, |m, i| m.max(bv[i * k + c].abs()));
         if !nx.is_finite() { return Err(format!("solution column {c} is not finite")) }
+        // the same bound for the column-equilibrated system A D^-1 (D x), D = diag of the column maxima: ||A D^-1||_inf <= n
+        let ny = (0..n).fold(0f64, |m, t| m.max(xv[t * k + c].abs() * col_max(n, n, av, t))) * n as f64;
         for i in 0..n {
             let r: f64 = (0..n).map(|t| av[i * n + t] * xv[t * k + c]).sum::<f64>() - bv[i * k + c];
-            let bound = tol * (na * nx * n as f64 + nb) + slack;
+            let bound = tol * ((na * nx).min(ny) * n as f64 + nb) + slack;
             if !(r.abs() <= bound) { return Err(format!("residual (A x - b)[{i}][{c}] = {r:e} exceeds rounding accuracy ({bound:e})")) }
         }
     }
@@ -1580,7 +1584,7 @@ fn band(a_s: &str, e_s: &str, base: &str) -> Option<(Vec<usize>, Vec<f64>)> {
 fn col_max(n: usize, k: usize, v: &[f64], c: usize) -> f64 { (0..n).fold(0f64, |m, i| m.max(v[i * k + c].abs())) }
 
 /// solve with a band matrix / band right-hand side (well-conditioned by construction, cond_inf <= 1e3): the exact model solution
-/// within 1e-11 of every column's greatest entry, and the residual of the code's own answer at rounding level, column by column
+/// within 1e-11 (in column-equilibrated variables), and the residual of the code's own answer at rounding level, column by column
 fn p_solve(args: &[&str], expected: &str) -> Option<Verdict> {
     let ((ash, av), (bsh, bv)) = (band(args[0], args[1], args[4])?, band(args[2], args[3], args[4])?);
     let (a, b) = (Array::new(av.clone(), ash.clone()).ok()?, Array::new(bv.clone(), bsh.clone()).ok()?);
@@ -1595,11 +1599,15 @@ fn p_solve(args: &[&str], expected: &str) -> Option<Verdict> {
     if x.get_shape().unwrap() != shape || xv.len() != vals.len() { return mismatch(observed, format!("shape: model {:?}", shape)) }
     let n = ash[0];
     let k = if n == 0 { 0 } else { xv.len() / n };
+    // in column-equilibrated variables y_t = x_t * max|A[.][t]| (elimination with partial pivoting commutes with a column scaling of A, so its
+    // forward error is relative to the greatest y, not to the greatest x: a component that belongs to a column of entries 2^-37 carries 2^37
+    // times the absolute error of the others)
+    let cw: Vec<f64> = (0..n).map(|t| { let m = col_max(n, n, &av, t); if m > 0. { m } else { 1. } }).collect();
     for c in 0..k {
-        let unit = col_max(n, k, &vals, c);
+        let unit = (0..n).fold(0f64, |m, t| m.max(vals[t * k + c].abs() * cw[t]));
         for i in 0..n {
             let (cv, mv) = (xv[i * k + c], vals[i * k + c]);
-            if !((cv - mv).abs() <= 1e-11 * unit) { return mismatch(observed, format!("x[{i}][{c}]: code {cv:e}, exact model {mv:e} (tolerance 1e-11 of the column's greatest entry {unit:e})")) }
+            if !((cv - mv).abs() * cw[i] <= 1e-11 * unit) { return mismatch(observed, format!("x[{i}][{c}]: code {cv:e}, exact model {mv:e} (tolerance 1e-11 of the greatest |x_t| max|A[.][t]| = {unit:e}, weight {:e})", cw[i])) }
         }
     }
     if let Err(d) = residual_cols(n, &av, &xv, &bv, RES_TOL, 0.) { return mismatch(observed, d) }
@@ -1631,11 +1639,11 @@ fn p_det(args: &[&str], expected: &str) -> Option<Verdict> {
 
 /// qr of a band matrix / stack (columns or blocks of very different magnitude; well-conditioned after the columns are brought to the
 /// same scale): Q against the exact Gram-Schmidt vectors, Q^T Q = I, R upper triangular, Q R = A — every bound RELATIVE TO THE COLUMN
-/// the entry belongs to (1e-12 of n * the column's greatest entry).  When the exponents are constant along every column (base 2) the
+/// the entry belongs to (3e-12 of n * the column's greatest entry; cond <= 100 after equilibration).  When the exponents are constant along every column (base 2) the
 /// factors are also compared with those of the unscaled matrix: the same Q, R with its columns scaled (Gram-Schmidt commutes exactly
 /// with a power-of-two column scaling).
 fn p_qr(args: &[&str], expected: &str) -> Option<Verdict> {
-    const QTOL: f64 = 1e-12;
+    const QTOL: f64 = 3e-12;
     let (shape, av_all) = band(args[0], args[1], args[2])?;
     let a = Array::new(av_all.clone(), shape.clone()).ok()?;
     let real = match std::panic::catch_unwind(std::panic::AssertUnwindSafe(|| a.qr())) { Ok(r) => r, Err(_) => return Some(compare_default("panic".into(), expected)) };
